@@ -9,10 +9,15 @@ universally quantified (`Impl σ`, any state type `σ`), so each theorem covers 
 input; only the *order* of the steps is used — "all checks precede the first write, or the writes sit
 inside `cached`".
 
-The unchanged code does **not** satisfy the full statement: `C09_full_fails`.  Entry points whose
-atomicity rests on later checks being implied by earlier ones are `_partial` with the assumed checks
-listed explicitly; the check-after-write paths each have a machine-checked witness. (`Slash` used to be
-one of them — F-04a — and is atomic by shape since commit b01075b: `C09_slash_fail_atomic`.)
+The four check-after-write paths found on the real code — Slash (F-04a), NST deposit/withdraw (F-09a),
+RegisterToken (F-09b), UpdateNSTByBalanceChange (F-09d) — have been repaired with cache contexts and are
+atomic by shape: `C09_slash_fail_atomic`, `C09_assetsNST_fail_atomic` (+ `C09_assetsLST_fail_atomic`),
+`C09_registerToken_fail_atomic`, `C09_nstBalanceChange_fail_atomic`; their old orders are kept as
+`…PreFix` programs with regression witnesses.  The full statement over *all* registered entry points is
+still not provable from order alone (`C09_full_fails`): delegate / undelegate / associate / dissociate /
+opt-in / opt-out / createTask through the precompiles write before their last checks, and their
+atomicity rests on those checks being infallible where they stand — these stay `_partial` with the
+assumed checks listed explicitly (no failing input is known for them on the real code).
 -/
 namespace ExoVerif.Atomic
 
@@ -92,6 +97,41 @@ theorem C09_updateToken_fail_atomic {σ : Type} (I : Impl σ) (s : σ)
     (precompileCall (run I updateToken) s).2 = s :=
   C09_precompile_fail_atomic I _ s (by decide) h
 
+/-- LST deposit / withdrawal through the precompile: every step after argument parsing runs on one cache
+context written last (commit "fix: F-09a"), so a refusal anywhere — including UpdateStakingAssetTotalAmount
+after the staker's record was updated — returns `false` and leaves nothing -/
+theorem C09_assetsLST_fail_atomic {σ : Type} (I : Impl σ) (s : σ)
+    (h : (precompileCall (run I assetsDepositWithdrawLST) s).1.isFailure = true) :
+    (precompileCall (run I assetsDepositWithdrawLST) s).2 = s :=
+  C09_precompile_fail_atomic I _ s (by decide) h
+
+/-- NST deposit / withdrawal: the booking in x/assets and the oracle's validator-list update share that
+cache context; a refusal of the oracle side ("remove unexist validator") no longer leaves the booking (F-09a, fixed) -/
+theorem C09_assetsNST_fail_atomic {σ : Type} (I : Impl σ) (s : σ)
+    (h : (precompileCall (run I assetsDepositWithdrawNST) s).1.isFailure = true) :
+    (precompileCall (run I assetsDepositWithdrawNST) s).2 = s :=
+  C09_precompile_fail_atomic I _ s (by decide) h
+
+/-- RegisterToken: asset and oracle token/feeder are registered in one cache context (F-09b, fixed) … -/
+theorem C09_registerToken_fail_atomic {σ : Type} (I : Impl σ) (s : σ)
+    (h : (precompileCall (run I registerToken) s).1.isFailure = true) :
+    (precompileCall (run I registerToken) s).2 = s :=
+  C09_precompile_fail_atomic I _ s (by decide) h
+
+/-- … and the one write a cache context cannot undo — the oracle's in-memory params cache — is the last
+step before `writeFunc()`: no check or callee that could still fail follows it -/
+theorem C09_registerToken_mem_write_last :
+    ((registerToken.dropWhile (· != .write "cs.AddCache(ItemP)")).all
+      (fun st => match st with | .check _ => false | .call _ => false | _ => true)) = true ∧
+    registerToken.contains (.write "cs.AddCache(ItemP)") = true := by decide
+
+/-- UpdateNSTByBalanceChange (called from the price-update path, its error only logged): the per-staker
+loop runs in one cache context written after the last staker (F-09d, fixed) -/
+theorem C09_nstBalanceChange_fail_atomic {σ : Type} (I : Impl σ) (s : σ)
+    (h : (blockHook (run I updateNSTByBalanceChange2) s).1.isFailure = true) :
+    (blockHook (run I updateNSTByBalanceChange2) s).2 = s :=
+  C09_blockHook_fail_atomic I _ s (by decide) h
+
 /-- delegation msg server: the whole loop runs in a cache context -/
 theorem C09_msgDelegate_fail_atomic {σ : Type} (I : Impl σ) (s : σ) (e : Err)
     (h : (run I msgDelegate s).1 = .error e) : (run I msgDelegate s).2 = s :=
@@ -145,19 +185,6 @@ theorem C09_item_fail_isolated {σ : Type} (pre post : List (Eff σ Unit)) (bad 
 
 /-! ## entry points atomic only if later checks cannot fail where they stand (`_partial`) -/
 
-/-- checks of UpdateStakingAssetTotalAmount / the final read that come after the staker's record was
-written; they repeat `IsStakingAsset` (same key) and need `StakingTotalAmount ≥ withdrawable`. -/
-def lstAssumed : List String :=
-  ["changeAmount.IsNil", "Get(asset)!=nil", "UpdateAssetValue(StakingTotalAmount)", "GetStakerSpecifiedAssetInfo"]
-
-theorem C09_assetsLST_fail_atomic_partial {σ : Type} (I : Impl σ) (s : σ)
-    (hinf : ∀ n, n ∈ lstAssumed → ∀ c, I.chk n s c = none) (e : Err)
-    (h : (run I assetsDepositWithdrawLST s).1 = .error e) : (run I assetsDepositWithdrawLST s).2 = s :=
-  run_fail_atomic_assuming I lstAssumed _ s hinf (by decide) e h
-
-/-- without the assumption the LST path is not atomic by shape -/
-theorem C09_assetsLST_shape_not_atomic : atomicShape assetsDepositWithdrawLST = false := by decide
-
 /-- delegate: after the staker's withdrawable amount was reduced, CalculateShare (ErrDivisorIsZero when
 the pool has shares but no tokens), the operator/delegation updates and the staker list may still fail -/
 def delegateAssumed : List String :=
@@ -205,22 +232,6 @@ theorem C09_createTask_early_refusals_clean :
       "IsExistTask", "GetOptInOperators"].all (fun n => dirtyAt precompileCreateTask n false false 0 == some false) = true := by
   decide
 
-/-- NST deposit/withdraw: atomic only if the oracle-side update cannot refuse -/
-def nstAssumed : List String := lstAssumed ++ ["getDecimal", "exists||amount.IsPositive"]
-
-theorem C09_assetsNST_fail_atomic_partial {σ : Type} (I : Impl σ) (s : σ)
-    (hinf : ∀ n, n ∈ nstAssumed → ∀ c, I.chk n s c = none) (e : Err)
-    (h : (run I assetsDepositWithdrawNST s).1 = .error e) : (run I assetsDepositWithdrawNST s).2 = s :=
-  run_fail_atomic_assuming I nstAssumed _ s hinf (by decide) e h
-
-/-- RegisterToken: atomic only if SetStakingAssetInfo cannot refuse after the oracle registration -/
-def registerTokenAssumed : List String := ["Decimals>MaxDecimal", "StakingTotalAmount.IsNegative", "Has(assetID)"]
-
-theorem C09_registerToken_fail_atomic_partial {σ : Type} (I : Impl σ) (s : σ)
-    (hinf : ∀ n, n ∈ registerTokenAssumed → ∀ c, I.chk n s c = none) (e : Err)
-    (h : (run I registerToken s).1 = .error e) : (run I registerToken s).2 = s :=
-  run_fail_atomic_assuming I registerTokenAssumed _ s hinf (by decide) e h
-
 /-! ## witnesses: the check-after-write paths really leave a trace (state = a counter of writes) -/
 
 /-- every write and every callee adds one; the checks named in `bad` fail, all others pass -/
@@ -248,20 +259,49 @@ theorem C09_slash_regression_witness :
     blockHook (run (counting []) slash) 0 = (.ok, 2) := by
   refine ⟨?_, ?_, ?_, ?_, ?_, ?_⟩ <;> decide
 
-/-- F-09a: NST deposit/withdraw booked (2 writes), then the validator-list update refuses -/
-theorem C09_nst_witness :
+/-- the orders the three repaired entry points had before their fixes (no cache context) -/
+def assetsNSTPreFix : Prog :=
+  [.check "CheckExocoreGatewayAddr", .check "DepositWithdrawParams"] ++ performDepositOrWithdraw ++
+  updateNSTValidatorListForStaker ++ [.check "GetStakerSpecifiedAssetInfo"]
+
+def registerTokenPreFix : Prog :=
+  [.check "CheckExocoreGatewayAddr", .check "TokenFromInputs", .check "IsStakingAsset(already)",
+   .check "GetTokenIDFromAssetID", .check "ParseInt(decimal)", .check "ParseUint(interval)",
+   .write "oracle.SetParams", .write "cs.AddCache(ItemP)",
+   .check "Decimals>MaxDecimal", .check "StakingTotalAmount.IsNegative", .check "Has(assetID)", .write "Set(asset)"]
+
+def nstBalanceChangePreFix : Prog :=
+  updateNSTByBalanceChange2.filter (fun st => st != .openC && st != .closeC)
+
+/-- F-09a (fixed): old order — booked (2 writes), then the validator-list update refuses; new order — same
+refusal, entry state -/
+theorem C09_nst_regression_witness :
+    atomicShape assetsNSTPreFix = false ∧
+    precompileCall (run (counting ["exists||amount.IsPositive"]) assetsNSTPreFix) 0
+      = (.failed "exists||amount.IsPositive", 2) ∧
     precompileCall (run (counting ["exists||amount.IsPositive"]) assetsDepositWithdrawNST) 0
-      = (.failed "exists||amount.IsPositive", 2) := by decide
+      = (.failed "exists||amount.IsPositive", 0) ∧
+    precompileCall (run (counting ["UpdateAssetValue(StakingTotalAmount)"]) assetsDepositWithdrawLST) 0
+      = (.failed "UpdateAssetValue(StakingTotalAmount)", 0) ∧
+    precompileCall (run (counting []) assetsDepositWithdrawNST) 0 = (.ok, 4) := by
+  refine ⟨?_, ?_, ?_, ?_, ?_⟩ <;> decide
 
-/-- F-09b: oracle token registered (store + cache), then the asset is rejected -/
-theorem C09_registerToken_witness :
-    precompileCall (run (counting ["Decimals>MaxDecimal"]) registerToken) 0 = (.failed "Decimals>MaxDecimal", 2) := by
-  decide
+/-- F-09b (fixed): old order — oracle token registered (store + cache), then the asset is rejected -/
+theorem C09_registerToken_regression_witness :
+    atomicShape registerTokenPreFix = false ∧
+    precompileCall (run (counting ["Decimals>MaxDecimal"]) registerTokenPreFix) 0 = (.failed "Decimals>MaxDecimal", 2) ∧
+    precompileCall (run (counting ["Decimals>MaxDecimal"]) registerToken) 0 = (.failed "Decimals>MaxDecimal", 0) ∧
+    precompileCall (run (counting ["ParseInt(decimal)"]) registerToken) 0 = (.failed "ParseInt(decimal)", 0) ∧
+    precompileCall (run (counting []) registerToken) 0 = (.ok, 3) := by
+  refine ⟨?_, ?_, ?_, ?_, ?_⟩ <;> decide
 
-/-- F-09d: staker 1 updated and stored, then staker 2 is refused -/
-theorem C09_nstBalanceChange_witness :
-    blockHook (run (counting ["balance range(2)"]) updateNSTByBalanceChange2) 0 = (.failed "balance range(2)", 2) := by
-  decide
+/-- F-09d (fixed): old order — staker 1 updated and stored, then staker 2 is refused -/
+theorem C09_nstBalanceChange_regression_witness :
+    atomicShape nstBalanceChangePreFix = false ∧
+    blockHook (run (counting ["balance range(2)"]) nstBalanceChangePreFix) 0 = (.failed "balance range(2)", 2) ∧
+    blockHook (run (counting ["balance range(2)"]) updateNSTByBalanceChange2) 0 = (.failed "balance range(2)", 0) ∧
+    blockHook (run (counting []) updateNSTByBalanceChange2) 0 = (.ok, 4) := by
+  refine ⟨?_, ?_, ?_, ?_⟩ <;> decide
 
 /-- delegate after a pool was emptied while keeping shares: withdrawable reduced, then ErrDivisorIsZero -/
 theorem C09_delegate_witness :
@@ -276,26 +316,26 @@ def C09_full : Prop :=
   ∀ (name : String) (p : Prog), (name, p) ∈ entryPoints →
     ∀ (I : Impl Nat) (s : Nat), (precompileCall (run I p) s).1.isFailure = true → (precompileCall (run I p) s).2 = s
 
+/-- refuted in the model only: the witness is the shape of `delegateTo` (CalculateShare after the staker's
+record was written) with an implementation in which that check fails; no such state is known on the real code -/
 theorem C09_full_fails : ¬ C09_full := by
   intro h
-  have h1 := h "assets.registerToken" registerToken (by decide) (counting ["Decimals>MaxDecimal"]) 0
-  rw [C09_registerToken_witness] at h1
+  have h1 := h "delegation.delegate" precompileDelegate (by decide) (counting ["CalculateShare"]) 0
+  rw [C09_delegate_witness] at h1
   exact absurd (h1 rfl) (by decide)
 
 /-- which registered entry points are atomic by shape alone — the rest carry `_partial` theorems -/
 theorem C09_shape_census :
     (entryPoints.filter (fun x => atomicShape x.2)).map (·.1) =
-      ["assets.registerOrUpdateClientChain", "assets.updateToken", "reward.claimReward", "msg.delegate", "msg.undelegate",
-       "msg.optIn", "msg.optOut", "operator.Slash", "delegation.EndBlock.record", "operator.UpdateVotingPower"] := by decide
+      ["assets.depositLST", "assets.withdrawLST", "assets.depositNST", "assets.withdrawNST",
+       "assets.registerOrUpdateClientChain", "assets.registerToken", "assets.updateToken", "reward.claimReward",
+       "msg.delegate", "msg.undelegate", "msg.optIn", "msg.optOut", "operator.Slash", "delegation.EndBlock.record",
+       "operator.UpdateVotingPower", "oracle.UpdateNSTByBalanceChange"] := by decide
 
 /-! ## non-vacuity -/
 
 example : precompileCall (run (counting ["IsStakingAsset"]) assetsDepositWithdrawLST) 7 = (.failed "IsStakingAsset", 7) := by decide
 example : precompileCall (run (counting []) assetsDepositWithdrawLST) 7 = (.ok, 9) := by decide
-example : ∀ n, n ∈ lstAssumed → ∀ c : Nat, (counting ["IsStakingAsset"]).chk n 0 c = none := by
-  intro n hn c
-  simp only [lstAssumed, List.mem_cons, List.not_mem_nil, or_false] at hn
-  rcases hn with h | h | h | h <;> subst h <;> rfl
 example : blockHook (run (counting ["DeleteUndelegationRecord"]) endBlockRecord) 3 = (.failed "DeleteUndelegationRecord", 3) := by decide
 example : runItems [run (counting []) endBlockRecord, run (counting ["DeleteUndelegationRecord"]) endBlockRecord,
     run (counting []) endBlockRecord] 0 = 8 := by decide
